@@ -63,6 +63,9 @@ func journalDriver(args []string) (*Summary, error) {
 		run(fmt.Sprintf("gen-%d-%d", *fl.seed, i), jrn.Gen(r, *nFeeds, *nTrips, *nStops))
 		s.Counters["generated"]++
 	}
+	if jrn.HookMissingRuns > 0 {
+		s.Counters["hook_missing_runs"] = jrn.HookMissingRuns
+	}
 	s.Records = w.N
 	return s, w.Close()
 }
